@@ -20,6 +20,7 @@ import (
 	"errors"
 	"fmt"
 	"os"
+	"strings"
 )
 
 import (
@@ -139,11 +140,16 @@ func HostRuleConfLoad(filename string) (HostConf, error) {
 	// convert HostTagToHost to Host2HostTag
 	host2HostTag := make(Host2HostTag)
 
+	// host names are matched case-insensitively, so duplicates are detected the same way
+	hostSeen := make(map[string]bool)
+
 	for hostTag, hostnameList := range *config.Hosts {
 		for _, hostName := range *hostnameList {
-			if host2HostTag[hostName] != "" {
+			key := strings.ToLower(hostName)
+			if hostSeen[key] {
 				return conf, fmt.Errorf("host duplicate for %s", hostName)
 			}
+			hostSeen[key] = true
 			host2HostTag[hostName] = hostTag
 		}
 	}
